@@ -1739,20 +1739,31 @@ pub fn content(r: &mut Rng, class: usize) -> Vec<u8> {
             v
         }
         10 => {
-            // one line longer than BufReader's 8 KiB buffer with the token
-            // straddling the buffer boundary
+            // one line longer than a plausible buffer / piece size P (BufReader's
+            // 8 KiB, 16..128 KiB, rarely 1 MiB) with the token straddling P,
+            // well behind P, or absent
             let mut v = vec![];
             if r.chance(1, 2) {
                 v.extend_from_slice(b"first line\n");
             }
             let start = v.len();
-            let n = r.range(8200, 9000);
+            let p: usize = if r.chance(1, 24) { 1 << 20 } else { *r.pick(&[8192usize, 8192, 16384, 32768, 65536, 65536, 131072]) };
+            let n = p + r.range(8, 808);
             v.extend((0..n).map(|_| *r.pick(b"abcdefgh $NetBS")));
-            if r.chance(2, 3) {
-                let at = 8192 - r.range(0, 10);
-                if at >= start && at + 7 <= v.len() {
+            match r.below(6) {
+                0 | 1 | 2 => {
+                    // straddling offset P of the file (and, without a first line, of the line)
+                    let at = p - r.range(0, 10);
+                    if at >= start && at + 7 <= v.len() {
+                        v[at..at + 7].copy_from_slice(b"$NetBSD");
+                    }
+                }
+                3 | 4 => {
+                    // late in the line, behind the first P bytes
+                    let at = (start + p + r.range(1, 700)).min(v.len() - 7);
                     v[at..at + 7].copy_from_slice(b"$NetBSD");
                 }
+                _ => {}
             }
             v.extend_from_slice(b"\nlast line\n");
             v
